@@ -1,5 +1,5 @@
 SPECIFICATION Spec
-CONSTANTS MaxBr = 3 MaxN = 5
+CONSTANTS MaxBr = 3 MaxN = 5 MaxRuns = 1
   Kinds <- KindsSmall
   BufSizes <- BufThorough
 INVARIANT Emitted
